@@ -901,7 +901,71 @@ fn enumerate(ctx: &mut Ctx, w: &mut World, files: &[F], values: &[u64], depth: u
     }
 }
 
+//-----------------------------------------------------------------------------
+// A mapping the OS refuses although the file exists and has a good size.
+
+/// A memfd sealed against writes (reached through /proc/self/fd): the kernel refuses a shared writable
+/// mapping of it (EPERM) but accepts weaker ones. The statement leaves two outcomes: an error, or a map
+/// that keeps all its promises (valid slice equal to the content; for a mutable map, changes reach the file).
+fn sealed_case(ctx: &mut Ctx, mode: Mode, words: usize) {
+    let case = || json!({"SealedMemfd": {"mode": mode, "words": words}});
+    let sig = |what: &str| format!("MemoryMap.new[write-sealed memfd, {:?}]{}", mode, what);
+    let name = std::ffi::CString::new("verif-c18-sealed").unwrap();
+    let fd = unsafe { libc::memfd_create(name.as_ptr(), libc::MFD_ALLOW_SEALING | libc::MFD_CLOEXEC) };
+    if fd < 0 {
+        ctx.count("sealed_memfd_unavailable", 1);
+        return;
+    }
+    let file = unsafe { <File as std::os::unix::io::FromRawFd>::from_raw_fd(fd) };
+    let data: Vec<u64> = (0..words).map(|i| pattern(99, i)).collect();
+    let bytes: Vec<u8> = data.iter().flat_map(|w| w.to_le_bytes()).collect();
+    if file.write_all_at(&bytes, 0).is_err() || unsafe { libc::fcntl(fd, libc::F_ADD_SEALS, libc::F_SEAL_WRITE) } != 0 {
+        ctx.count("sealed_memfd_unavailable", 1);
+        return;
+    }
+    let path = PathBuf::from(format!("/proc/self/fd/{}", fd));
+    ctx.states += 1;
+    match guard(|| MemoryMap::new(&path, mode.lib())) {
+        Err(msg) => ctx.panic_violation(&sig(""), &msg, Some("Err or a working map".to_string()), case),
+        Ok(Err(_)) => {
+            ctx.eval();
+            ctx.count("map_err[refused by the OS: write-sealed memfd]", 1);
+        }
+        Ok(Ok(mut map)) => {
+            ctx.count("map_ok[write-sealed memfd]", 1);
+            let same = guard(|| first_mismatch(map.as_ref(), &data));
+            let ok = matches!(same, Ok(None));
+            ctx.require(|| sig("[content]"), ok, case, || json!({"observed": format!("{:?}", same), "expected": "the element slice equals the file's content"}));
+            if ok && mode == Mode::Mutable && map.mode() == MappingMode::Mutable {
+                let idx = words / 2;
+                let wrote = guard(|| unsafe { map.as_mut_slice()[idx] = WRITE_VALUE });
+                let _ = guard(move || drop(map));
+                let mut buf = [0u8; 8];
+                let read = file.read_exact_at(&mut buf, 8 * idx as u64);
+                let got = u64::from_le_bytes(buf);
+                ctx.require(
+                    || sig("[write reaches the file]"),
+                    wrote.is_ok() && read.is_ok() && got == WRITE_VALUE,
+                    case,
+                    || json!({"observed": format!("element {} of the file is {:#x} after writing {:#x} through the mutable map and dropping it (write: {:?})", idx, got, WRITE_VALUE, wrote), "expected": "changes made through a mutable map are in the file afterwards (or MemoryMap::new fails)"}),
+                );
+            } else {
+                let _ = guard(move || drop(map));
+            }
+        }
+    }
+}
+
+fn sealed_cases(ctx: &mut Ctx) {
+    for &mode in &[Mode::ReadOnly, Mode::Mutable] {
+        for &words in &[1usize, 511, 512, 513, 1024] {
+            sealed_case(ctx, mode, words);
+        }
+    }
+}
+
 fn explore(ctx: &mut Ctx) {
+    sealed_cases(ctx);
     let mut w = World::new(ctx);
     ctx.note("page_size", w.page);
     let mut leaf = 0u64;
@@ -934,6 +998,13 @@ fn explore(ctx: &mut Ctx) {
 }
 
 fn replay(ctx: &mut Ctx, v: &Value) {
+    if let Some(c) = v.get("SealedMemfd") {
+        let mode: Mode = serde_json::from_value(c["mode"].clone()).expect("replay: not a C18 sealed-memfd case");
+        let words = c["words"].as_u64().expect("replay: not a C18 sealed-memfd case") as usize;
+        assert!((1..=(1 << 20)).contains(&words), "replay: sealed-memfd size out of range");
+        sealed_case(ctx, mode, words);
+        return;
+    }
     let c: Case = serde_json::from_value(v.clone()).expect("replay: not a C18 case");
     // Validate the handle indices against the reference state before touching the library.
     let mut state: Vec<(F, Mode)> = Vec::new();
